@@ -136,6 +136,20 @@ void profile_mesh(const json& plan, Ctx& ctx) {
 	ctx.sig.str(plan["init"].dump());
 	checkAll(w, "initial state", true);
 	SegExpect segx;
+	// C17: per shape, the partition labelling (triangle -> body part id) as read back right after SetShapePartitions; it must be
+	// read back again after save + reload
+	using PartLabelling = std::multiset<std::pair<TriKey, int>>;
+	std::map<size_t, PartLabelling> partExpect;
+	auto readPartLabelling = [&](NiShape* sh, PartLabelling& out) {
+		NiVector<BSDismemberSkinInstance::PartitionInfo> pi2;
+		std::vector<int> tp;
+		if (!w.nif->GetShapePartitions(sh, pi2, tp)) return false;
+		std::vector<Triangle> tris;
+		sh->GetTriangles(tris);
+		if (tp.size() != tris.size()) return false;
+		for (size_t i = 0; i < tris.size(); i++) out.insert({canonTri(tris[i]), tp[i] >= 0 && size_t(tp[i]) < pi2.size() ? int(pi2[tp[i]].partID) : -1 - tp[i]});
+		return true;
+	};
 	PartFlags pf; // C10: per shape, were partitions rebuilt (UpdateSkinPartitions) since the last edit touching them
 	int stepNo = 0;
 	for (auto& st : plan["steps"]) {
@@ -148,6 +162,7 @@ void profile_mesh(const json& plan, Ctx& ctx) {
 		auto shapes = w.nif->GetShapes();
 		size_t sidx = shapes.empty() ? 0 : size_t(ju64(st, "shape", 0) % shapes.size());
 		NiShape* shape = shapes.empty() ? nullptr : shapes[sidx];
+		if (op != "Restart" && op != "SetPartitions") partExpect.erase(sidx); // any other operation on the shape ends the "set, save, reload" episode
 
 		if (op == "DeleteVerts") {
 			if (!shape || shape->GetNumVertices() == 0) { stepNo++; continue; }
@@ -240,6 +255,20 @@ void profile_mesh(const json& plan, Ctx& ctx) {
 			// to the full invariants only if UpdateSkinPartitions ran after the last edit touching partitions
 			checkAll(w, where + " (reloaded)", true, &pf, true);
 			if (prop_is(ctx, "C17")) checkSegExpect(w, segx, where + " (reloaded)");
+			if (prop_is(ctx, "C17")) {
+				auto rs = w.nif->GetShapes();
+				for (auto& kv : partExpect) {
+					if (kv.first >= rs.size() || rs.size() != before.size()) continue;
+					PartLabelling got;
+					if (!readPartLabelling(rs[kv.first], got)) { ctx.viol("part:labels-unreadable-after-reload", where + ": the partition labelling set before the save cannot be read back after reload"); continue; }
+					if (got != kv.second) {
+						size_t lost = 0;
+						for (auto& e : kv.second) if (got.count(e) < kv.second.count(e)) lost++;
+						ctx.viol("part:labelling-after-reload", where + " [" + rs[kv.first]->name.get() + "]: " + std::to_string(lost) + " of " + std::to_string(kv.second.size()) + " (triangle, body part) pairs set before the save are not read back after reload");
+					}
+					ctx.probe("partition_labels_read_back_after_reload");
+				}
+			}
 			for (size_t k = 0; k < after.size(); k++) {
 				if (pf.rebuilt(k) && pf.cover(k) && after[k].hasParts) ctx.probe("restart_after_rebuild");
 				if (!pf.rebuilt(k)) pf.coverInvalid[k] = true; // stored without a rebuild: partitions are whatever the writer left
@@ -290,6 +319,8 @@ void profile_mesh(const json& plan, Ctx& ctx) {
 					}
 				}
 				ctx.probe("partition_labels_read_back");
+				PartLabelling pl;
+				if (readPartLabelling(shape, pl)) partExpect[sidx] = pl;
 			}
 		}
 		else if (op == "UpdateSkinPartitions") {
